@@ -1413,6 +1413,14 @@ radius_pkt_authenticator_chk(rad_pkt_hdr_p pkt, uint8_t *key, size_t key_len,
 		if (NULL != pkt_req) /* Checked as reply: reply never have request code, nothing authenticate it. */
 			return (EBADMSG);
 		return (0);
+	case RADIUS_PKT_TYPE_ACCOUNTING_REQUEST:
+	case RADIUS_PKT_TYPE_DISCONNECT_REQUEST:
+	case RADIUS_PKT_TYPE_COA_REQUEST:
+		/* Signed without the request authenticator: the own request
+		 * echoed back verify, but it is not a reply. */
+		if (NULL != pkt_req)
+			return (EBADMSG);
+		break;
 	}
 	if (0 != radius_pkt_authenticator_calc(pkt, key, key_len,
 	    pkt_authenticator_inside, pkt_req, (uint8_t*)calc_authr))
